@@ -102,8 +102,9 @@ Fixpoint open_loop (cfg : config) (files : list file) (a : open_acc) : open_acc 
                   else oa_disk a in
         match ck_ends (oc_chunk oc), rest with
         | [], [] =>
-          (* newest chunk without a complete record: remove it, it is created again *)
-          inl (mkOA sm0 (oa_closed a) (Some id) (oa_last a) (disk_remove id d1))
+          (* newest chunk without a complete record: remove it (it is created again) and
+             restore the eviction boundary *)
+          inl (mkOA (oa_sm a) (oa_closed a) (Some id) (oa_last a) (disk_remove id d1))
         | _, _ =>
           match replay sm0 id id (oc_records oc) (ck_ends (oc_chunk oc)) with
           | (s1, Some e) => inr (e, d1)
